@@ -155,7 +155,7 @@ def run_closure(crate, cl, parse_bounds, F):
 @rule("O1", doc="constructor privacy: the field of Slot is private, all Slot(..) constructions are in slot.rs", once=True)
 def o1(ctx):
     crate = ctx.lib("default")
-    adt = crate.adts.get("slot::Slot")
+    adt = crate.adt_named("slot::Slot")
     if adt is None:
         raise mir.AnchorMissing("slot::Slot")
     f = adt["variants"][0]["fields"]
